@@ -313,11 +313,13 @@ func (c *Ctx) checkReportBeforeClear(ruleO1, ruleO2 string) {
 	sitesAll := c.staticCallSites()
 	// reportsItsParam: f is a function (or closure) whose every path calls report/cachedReport on
 	// its first parameter
-	reportsItsParam := func(f *ssa.Function) bool {
-		if f == nil || f.Blocks == nil || len(f.Params) == 0 {
+	var reportsParam func(f *ssa.Function, pi int) bool
+	reportsItsParam := func(f *ssa.Function) bool { return reportsParam(f, 0) }
+	reportsParam = func(f *ssa.Function, pi int) bool {
+		if f == nil || f.Blocks == nil || len(f.Params) <= pi {
 			return false
 		}
-		p0 := ssa.Value(f.Params[0])
+		p0 := ssa.Value(f.Params[pi])
 		l := c.newLifter(func(in ssa.Instruction) bool {
 			call, ok := in.(*ssa.Call)
 			if !ok {
@@ -338,6 +340,14 @@ func (c *Ctx) checkReportBeforeClear(ruleO1, ruleO2 string) {
 			g := staticCallee(call)
 			if (g == repFn || g == crepFn) && canon(call.Call.Args[0]) == canon(S) {
 				return true
+			}
+			// a function literal / helper that is handed the scope and reports it on every path
+			if g != nil && g != repFn && g != crepFn && c.inModule(g) {
+				for i, a := range call.Call.Args {
+					if canon(a) == canon(S) && reportsParam(g, i) {
+						return true
+					}
+				}
 			}
 			// report dispatch through a function-typed parameter: every caller must pass a function
 			// that reports its argument
